@@ -62,6 +62,18 @@ def score_consistency(ctx, tag, call, s1, x, inp, retag=None):
     return v, s, g
 
 
+def whole_numbers(ctx, tag, obj, x, inp):
+    """the same whole numbers as floats, as integers and as a list of Python ints are the same parameters:
+    score and sensitivities must not depend on how they are handed over"""
+    whole = np.where(np.abs(x) < 0.3, 0.0, np.where(x < 1.0, 1.0, 2.0))
+
+    def f(p):
+        s, g = obj.evaluateS1(p)
+        s = float(s)
+        return (s, np.asarray(g, float)) if math.isfinite(s) else (s,)
+    ctx.number_types(tag + '.whole_number_parameters', f, whole, inp)
+
+
 # ------------------------------------------------------------------------------------------------
 def loglik_case(ctx, chi, rng, i):
     kinds, grids, obs, n_mech, psi, sig = c01.gen_case(rng)
@@ -97,6 +109,7 @@ def loglik_case(ctx, chi, rng, i):
     if g is None or not math.isfinite(v):
         return
     fd_all(ctx, ll, x, g, 'C03.LogLikelihood.gradient_is_derivative', inp)
+    whole_numbers(ctx, 'C03.LogLikelihood', ll, x, inp)
     # correspondence with the Lean model of the assembly (unfixed objects)
     if not fixed:
         model = toy.ToyModel(len(kinds), n_mech, i)
@@ -133,7 +146,7 @@ def hier_case(ctx, chi, rng, i, subs=None, n_ids=None):
     seed = int(rng.integers(10 ** 6))
     bare = len(subs) == 1 and rng.random() < 0.5
     reduced = rng.random() < 0.2
-    models = [c02.make_sub(chi, *s) for s in subs]
+    models = [c02.make_sub(chi, *s, n_ids=n_ids) for s in subs]
     pm = models[0] if bare else chi.ComposedPopulationModel(models)
     lls = []
     for _ in range(n_ids):
@@ -187,6 +200,8 @@ def hier_case(ctx, chi, rng, i, subs=None, n_ids=None):
     if g is None or not math.isfinite(v):
         return
     fd_all(ctx, hll, x, g, (TAG3 if cov_pooled else 'C03.Hierarchical.gradient_is_derivative'), inp)
+    if not cov_pooled:
+        whole_numbers(ctx, 'C03.Hierarchical', hll, x, inp)
     # glue: placement of the sub-models' blocks (Lean model) against the composed model's result
     if not fixed and not bare:
         try:
